@@ -1372,14 +1372,14 @@ Definition vtok {A} (m : M A) : Prop :=
   forall es s, VT es s -> match m s with Ret _ t e => VT (es ++ e) t | Fault => True end.
 (* calls that neither emit vtables nor touch the cache or the countdowns *)
 Definition Q (s t : bstate) : Prop :=
-  vcache t = vcache s /\ vb_flush_limit t = vb_flush_limit s /\ nest_id t = nest_id s /\
+  vcache t = vcache s /\ vb_flush_limit t = vb_flush_limit s /\
   (fa s < 0 -> fa t = fa s) /\ (fe s < 0 -> fe t = fe s).
 Definition quiet {A} (m : M A) : Prop :=
   forall s, match m s with Ret _ t e => Q s t /\ Forall (fun ev => is_vt ev = false) e | Fault => True end.
 
 Lemma Q_refl s : Q s s. Proof. unfold Q; auto. Qed.
 Lemma Q_trans s t u : Q s t -> Q t u -> Q s u.
-Proof. unfold Q. intros (a & b & c & d & e) (a' & b' & c' & d' & e'). osplit; try congruence; intros.
+Proof. unfold Q. intros (a & b & d & e) (a' & b' & d' & e'). osplit; try congruence; intros.
   - rewrite d'; auto. rewrite d; auto. - rewrite e'; auto. rewrite e; auto. Qed.
 
 Lemma quiet_ret {A} (a : A) : quiet (ret a). Proof. intros s; simpl; split; [apply Q_refl | constructor]. Qed.
@@ -1480,12 +1480,10 @@ Qed.
 Lemma quiet_vtok {A} (m : M A) : quiet m -> vtok m.
 Proof.
   intros H es s (ND & CC & FL & FA & FE). specialize (H s). destruct (m s) as [a t e|]; auto.
-  destruct H as [(Hvc & Hfl & _ & Hfa & Hfe) Hev]. unfold VT. rewrite (filter_quiet _ _ Hev). osplit; auto; try lia.
+  destruct H as [(Hvc & Hfl & Hfa & Hfe) Hev]. unfold VT. rewrite (filter_quiet _ _ Hev). specialize (Hfa FA). specialize (Hfe FE). osplit; auto; try lia.
   - intros ev Hin Hv. apply in_app_or in Hin as [Hin|Hin].
     + rewrite Hvc. apply CC; auto.
     + rewrite Forall_forall in Hev. rewrite (Hev _ Hin) in Hv. discriminate.
-  - rewrite Hfa; auto.
-  - rewrite Hfe; auto.
 Qed.
 
 Lemma vtok_bind {A B} (m : M A) (k : A -> M B) : vtok m -> (forall a, vtok (k a)) -> vtok (bind m k).
@@ -1512,9 +1510,9 @@ Proof.
 Qed.
 
 (* the state after a vtable has been emitted and entered into the cache *)
-Lemma VT_insert es s t ref vt vbs :
+Lemma VT_insert es s t ref dref vt vbs :
   VT es s -> find_exact vt (nest_id s) (vcache s) = None ->
-  vcache t = mkvd vt (nest_id s) ref vbs :: vcache s -> vb_flush_limit t = 0 -> fa t < 0 -> fe t < 0 ->
+  vcache t = mkvd vt (nest_id s) dref vbs :: vcache s -> vb_flush_limit t = 0 -> fa t < 0 -> fe t < 0 ->
   VT (es ++ [mkev ref EK_vtable (nest_id s) vt]) t.
 Proof.
   intros (ND & CC & FL & FA & FE) Hmiss Hvc Hfl Hfa Hfe. unfold VT. osplit; auto.
@@ -1526,4 +1524,170 @@ Proof.
     apply in_app_or in Hin as [Hin|[<-|[]]].
     + destruct (list_eqb vt (ev_bytes e) && (nest_id s =? ev_nest e)); [discriminate | apply CC; auto].
     + cbn. rewrite list_eqb_refl, Z.eqb_refl. discriminate.
+Qed.
+
+Lemma reserve_buffer_silent k u n s :
+  match reserve_buffer k u n s with Ret _ t e => e = [] /\ Q s t /\ nest_id t = nest_id s | Fault => True end.
+Proof.
+  pose proof (quiet_reserve_buffer k u n s) as H.
+  unfold reserve_buffer, note_demand, reserve_raw, alloc_call, bind, upd, ret in *.
+  destruct k; cbn in *;
+    repeat match goal with |- context [if ?b then _ else _] => destruct b end; cbn in *; destruct H; auto.
+Qed.
+
+Lemma create_vtable_char vt s :
+  match create_vtable vt s with
+  | Ret _ t e => (Q s t /\ nest_id t = nest_id s) /\ (e = [] \/ exists r, e = [mkev r EK_vtable (nest_id s) vt])
+  | Fault => True
+  end.
+Proof.
+  unfold create_vtable, emit_back, emit_front, emit_call, emitter_emit, bind, get, upd, ret. cbn.
+  repeat match goal with |- context [if ?b then _ else _] => destruct b eqn:? end; cbn;
+    (split; [unfold Q; cbn in *; osplit; auto; intros; lia | first [left; reflexivity | right; eexists; reflexivity]]).
+Qed.
+
+Lemma VT_Q es s t : VT es s -> Q s t -> VT es t.
+Proof.
+  intros (ND & CC & FL & FA & FE) (Hvc & Hfl & Hfa & Hfe). unfold VT. specialize (Hfa FA). specialize (Hfe FE).
+  osplit; auto; try lia. intros e Hin Hv. rewrite Hvc. apply CC; auto.
+Qed.
+
+Lemma VT_add_unrelated es s t d : VT es s -> vcache t = d :: vcache s -> vb_flush_limit t = 0 -> fa t < 0 -> fe t < 0 -> VT es t.
+Proof.
+  intros (ND & CC & FL & FA & FE) Hvc Hfl Hfa Hfe. unfold VT. osplit; auto.
+  intros e Hin Hv. rewrite Hvc. unfold find_exact. cbn [find].
+  destruct (list_eqb (vd_vt d) (ev_bytes e) && (vd_nest d =? ev_nest e)); [discriminate | apply CC; auto].
+Qed.
+
+Lemma ccv_rest_VT vt es s : VT es s ->
+  match ccv_rest true vt s with Ret a t e => a <> 0 -> VT (es ++ e) t | Fault => True end.
+Proof.
+  intros HV. pose proof HV as (ND & CC & FL & FA & FE).
+  unfold ccv_rest. unfold bind at 1. unfold get at 1. unfold bind at 1. unfold get at 1.
+  destruct (find_exact vt (nest_id s) (vcache s)) eqn:Ef.
+  { cbn. intros _. rewrite app_nil_r. exact HV. }
+  unfold bind at 1. unfold get at 1. unfold bind at 1.
+  pose proof (reserve_buffer_silent VD (vd_end s) VD_SIZE s) as H1.
+  destruct (reserve_buffer VD (vd_end s) VD_SIZE s) as [r1 t1 e1|]; [|exact I]. destruct H1 as (-> & Q1 & N1).
+  destruct r1; cbn [negb]; [|cbn; intros; congruence].
+  unfold bind at 1. unfold upd at 1. unfold bind at 1.
+  set (t2 := set_vd_end (u32 (vd_end s + VD_SIZE)) t1).
+  assert (Q2 : Q s t2) by (eapply Q_trans; [exact Q1 | unfold Q, t2; cbn; auto]).
+  pose proof (create_vtable_char vt t2) as H3.
+  destruct (create_vtable vt t2) as [ref t3 e3|]; [|exact I]. destruct H3 as [[Q3 N3] He3].
+  assert (Q3' : Q s t3) by (eapply Q_trans; eauto).
+  destruct (ref =? 0) eqn:Er; [cbn; intros; congruence|].
+  assert (Hnid : nest_id t2 = nest_id s) by (unfold t2; cbn; exact N1).
+  destruct He3 as [->|[r ->]].
+  { (* a reference came back although nothing was emitted: the descriptor is entered all the same *)
+    destruct Q3' as (Hvc3 & Hfl3 & Hfa3 & Hfe3).
+    destruct (find_copy vt (vcache s)) as [d2|].
+    - cbn. intros _. rewrite app_nil_r. assert (fa t3 = fa s) by auto. assert (fe t3 = fe s) by auto.
+      eapply VT_add_unrelated; [exact HV | cbn; reflexivity | cbn; lia | cbn; lia | cbn; lia].
+    - unfold bind at 1. unfold get at 1. unfold bind at 1. unfold get at 1.
+      rewrite Hfl3, FL. cbn [Z.eqb negb andb].
+      unfold bind at 1.
+      pose proof (reserve_buffer_silent VB (vb_end t3) (zlen vt) t3) as H5.
+      destruct (reserve_buffer VB (vb_end t3) (zlen vt) t3) as [r5 t5 e5|]; [|exact I]. destruct H5 as (-> & Q5 & N5).
+      destruct r5; cbn [negb]; [|cbn; intros; congruence].
+      cbn. intros _. rewrite app_nil_r. destruct Q5 as (Hvc5 & Hfl5 & Hfa5 & Hfe5).
+      assert (fa t3 = fa s) by auto. assert (fe t3 = fe s) by auto.
+      assert (fa t5 = fa t3) by (apply Hfa5; lia). assert (fe t5 = fe t3) by (apply Hfe5; lia).
+      eapply VT_add_unrelated; [exact HV | cbn; reflexivity | cbn; lia | cbn; lia | cbn; lia]. }
+  (* the vtable was emitted: it is entered into the cache before the call returns *)
+  rewrite Hnid.
+  destruct Q3' as (Hvc3 & Hfl3 & Hfa3 & Hfe3).
+  destruct (find_copy vt (vcache s)) as [d2|].
+  - cbn. intros _. assert (fa t3 = fa s) by auto. assert (fe t3 = fe s) by auto.
+    eapply VT_insert; eauto; cbn; try reflexivity; lia.
+  - unfold bind at 1. unfold get at 1. unfold bind at 1. unfold get at 1.
+    rewrite Hfl3, FL. cbn [Z.eqb negb andb].
+    unfold bind at 1.
+    pose proof (reserve_buffer_silent VB (vb_end t3) (zlen vt) t3) as H5.
+    destruct (reserve_buffer VB (vb_end t3) (zlen vt) t3) as [r5 t5 e5|]; [|exact I]. destruct H5 as (-> & Q5 & N5).
+    destruct r5; cbn [negb]; [|cbn; intros; congruence].
+    cbn. intros _. destruct Q5 as (Hvc5 & Hfl5 & Hfa5 & Hfe5).
+    assert (fa t3 = fa s) by auto. assert (fe t3 = fe s) by auto.
+    assert (fa t5 = fa t3) by (apply Hfa5; lia). assert (fe t5 = fe t3) by (apply Hfe5; lia).
+    eapply VT_insert; eauto; cbn; try reflexivity; lia.
+Qed.
+
+Definition vtokR (m : M Z) : Prop :=
+  forall es s, VT es s -> match m s with Ret a t e => a <> 0 -> VT (es ++ e) t | Fault => True end.
+
+Lemma vtokR_of_quiet (m : M Z) : quiet m -> vtokR m.
+Proof. intros H es s HV. pose proof (quiet_vtok m H es s HV) as K. destruct (m s); auto. Qed.
+
+Lemma vtokR_bind_quiet {A} (m : M A) (k : A -> M Z) : quiet m -> (forall a, vtokR (k a)) -> vtokR (bind m k).
+Proof.
+  intros Hm Hk es s HV. unfold bind. pose proof (quiet_vtok m Hm es s HV) as K.
+  destruct (m s) as [a t e|]; auto. specialize (Hk a (es ++ e) t K). destruct (k a t); auto.
+  rewrite app_assoc. exact Hk.
+Qed.
+
+Lemma ccv_vtokR vt : vtokR (create_cached_vtable true vt).
+Proof.
+  unfold create_cached_vtable. apply vtokR_bind_quiet; [apply quiet_ensure_ht|]. intros ok.
+  destruct (negb ok).
+  - intros es s HV. cbn. congruence.
+  - intros es s HV. apply ccv_rest_VT; auto.
+Qed.
+
+Lemma end_table_vtokR : vtokR (end_table true).
+Proof.
+  unfold end_table.
+  apply vtokR_bind_quiet; [apply quiet_expect_type | intros _].
+  apply vtokR_bind_quiet; [apply quiet_get | intros ie].
+  apply vtokR_bind_quiet; [apply quiet_get | intros o].
+  apply vtokR_bind_quiet; [apply quiet_get | intros vs].
+  intros es s HV. unfold bind at 1.
+  match goal with |- context [create_cached_vtable true ?v s] =>
+    pose proof (ccv_vtokR v es s HV) as K; destruct (create_cached_vtable true v s) as [vr t e|] end; [|exact I].
+  destruct (vr =? 0) eqn:E.
+  - cbn. congruence.
+  - assert (Hne : vr <> 0) by lia. specialize (K Hne).
+    match goal with |- match match ?m t with _ => _ end with _ => _ end => assert (Hq : quiet m) by quietA;
+      pose proof (quiet_vtok _ Hq (es ++ e) t K) as K2; destruct (m t) as [a u e'|] end; [|exact I].
+    intros _. rewrite app_assoc. exact K2.
+Qed.
+
+Definition vt_allowed (o : op) : bool :=
+  match o with OFlushCache | OSetCacheLimit _ | OReset _ _ | OClear => false | _ => true end.
+Definition no_flush (ops : list op) : Prop := Forall (fun o => vt_allowed o = true) ops.
+(* the calls of the run that end a table returned a reference *)
+Definition end_tables_ok (ops : list op) (rs : list Z) : Prop := Forall2 (fun o r => o = OEndTable -> r <> 0) ops rs.
+
+Lemma step_VT o : vt_allowed o = true -> forall es s a t e,
+  VT es s -> step true o s = Ret a t e -> (o = OEndTable -> a <> 0) -> VT (es ++ e) t.
+Proof.
+  intros Ha es s a t e HV Hs Hok.
+  destruct o; cbn [vt_allowed] in Ha; try discriminate; cbn [step] in Hs;
+  try (match type of Hs with ?m s = _ =>
+         assert (Hq : quiet m) by (first [ q start_buffer | q end_buffer | q start_struct | q end_struct | q start_table | q table_add
+                 | q table_add_offset | q start_vector | q extend_vector | q truncate_vector | q end_vector | q start_offset_vector
+                 | q extend_offset_vector | q truncate_offset_vector | q end_offset_vector | q start_string | q append_string
+                 | q truncate_string | q end_string | q enter_user_frame | q exit_user_frame_at | q set_max_level_op
+                 | q push_buffer_alignment | q pop_buffer_alignment | quietA ]);
+         pose proof (quiet_vtok _ Hq es s HV) as K; rewrite Hs in K; exact K end).
+  (* OEndTable *)
+  pose proof (end_table_vtokR es s HV) as K. rewrite Hs in K. apply K. apply Hok. reflexivity.
+Qed.
+
+Theorem vtable_once ops : forall s rs es t,
+  vb_flush_limit s = 0 -> fa s < 0 -> fe s < 0 -> no_flush ops ->
+  run true ops s = Some (rs, es, t) -> end_tables_ok ops rs ->
+  NoDup (map vkey (filter is_vt es)).
+Proof.
+  assert (G : forall ops es0 s rs es t, VT es0 s -> no_flush ops -> run true ops s = Some (rs, es, t) -> end_tables_ok ops rs ->
+              VT (es0 ++ es) t).
+  { induction ops0 as [|o ops0 IH]; intros es0 s rs es t HV Hnf Hr Hok.
+    - cbn in Hr. injection Hr as _ <- <-. rewrite app_nil_r. exact HV.
+    - cbn [run] in Hr. destruct (step true o s) as [a s1 e1|] eqn:Es; [|discriminate].
+      destruct (run true ops0 s1) as [[[rs' es'] t']|] eqn:Er; [|discriminate].
+      injection Hr as <- <- <-. inversion Hnf as [|? ? Ho Hnf']; subst. inversion Hok as [|? ? ? ? Hoa Hok']; subst.
+      pose proof (step_VT o Ho es0 s a s1 e1 HV Es Hoa) as K.
+      rewrite app_assoc. eapply IH; eauto. }
+  intros s rs es t Hfl Hfa Hfe Hnf Hr Hok.
+  assert (HV : VT [] s) by (unfold VT; osplit; auto; [constructor | intros e []]).
+  destruct (G ops [] s rs es t HV Hnf Hr Hok) as (ND & _). exact ND.
 Qed.
